@@ -456,10 +456,7 @@ class JakesSampleGenerator(FadingSampleGenerator):
             num_samples = 1
 
         # Generate a 1D numpy with the time samples
-        t = np.arange(
-            self._current_time,  # Start time
-            num_samples * self.Ts + self._current_time,
-            self.Ts * 1.0000000001)
+        t = self._current_time + self.Ts * np.arange(num_samples)
 
         # Update the self._current_time variable with the value of the next
         # time sample that should be generated when _generate_time_samples
